@@ -81,13 +81,13 @@ class CKMGate(Gate, CachedClass):
         u1p = np.array([[0, 0, 0], [0, -s3, c3], [0, -c3, -s3]])
         u2p1 = np.array([
             [-s1, 0, c1 * m1], [0, 0, 0],
-            [-c1 * m1, 0, s1],
+            [-c1 * p1, 0, -s1],
         ])
         u2p2 = np.array([
             [0, 0, -1j * s1 * m1], [0, 0, 0],
             [-1j * s1 * p1, 0, 0],
         ])
-        u3p = np.array([[s2, c2, 0], [-c2, -s2, 0], [0, 0, 0]])
+        u3p = np.array([[-s2, c2, 0], [-c2, -s2, 0], [0, 0, 0]])
 
         return np.array(
             [
